@@ -35,6 +35,7 @@ type Mail struct {
 	Subject string
 	Text    string
 	HTML    string
+	Failed  bool // the mailer was asked to send this and returned an error (Stack.MailFault): it never left the system
 }
 
 // SMSMsg is one delivered text message.
